@@ -488,15 +488,29 @@ def trip(t, v, lazy):
     return out
 
 
+_TRIP = {}
+
+
+def _trip_memo(t, v, lazy):
+    """blame() asks about the same small sub-values over and over: remember which steps failed for them."""
+    k = (t, v, lazy)
+    if k not in _TRIP:
+        if len(_TRIP) > 200000:
+            _TRIP.clear()
+        o = trip(t, v, lazy)
+        _TRIP[k] = {m: (o[m][0] != 'ok' if m in o else True) for m in ('build',) + MODES}
+    return _TRIP[k]
+
+
 def fails_mode(mode):
     def f(t, v, lazy):
-        o = trip(t, v, lazy)
-        return o['build'][0] != 'ok' or o[mode][0] != 'ok'
+        o = _trip_memo(t, v, lazy)
+        return o['build'] or o[mode]
     return f
 
 
 def fails_build(t, v, lazy):
-    return trip(t, v, lazy)['build'][0] != 'ok'
+    return _trip_memo(t, v, lazy)['build']
 
 
 def case_of(t, v, lazy):
